@@ -1,4 +1,5 @@
 import MgpuProofs.C03VConfBfe
+import MgpuProofs.C03VConfExec
 /-! # C03 (vector half) — conformance of the TRANSLATED integer lane bodies of both vector ALUs to the ISA specification
 
 The scalar half (`Props/C03S.lean`) proves, per opcode and for all inputs, that the Go handler regenerated into Lean
@@ -750,6 +751,42 @@ theorem gcn3_runVLSHRREVB32_full_refuted : ¬ gcn3_runVLSHRREVB32_full := by
 example : Src1IsVgpr { lshrrevWitness with src1 := 0xFFFFFFFF#64 } := by decide
 example : ShiftBelow8 { lshlAddWitness with src1 := 4#64 } := by decide
 example : ¬ ShiftBelow8 lshlAddWitness := by decide
+
+/-! ## What the comparison is with: `execVALU`'s lane semantics, and property C06's lane-local body -/
+
+/-- **`specLane` is the lane semantics of the executable specification.**  For an integer instruction without SDWA,
+    `C03V.execVALU` (the function the Lean driver runs on every correspondence case) is the fold over the 64 lanes of a
+    step that leaves an inactive lane alone and, for an active lane, applies the opcode's table function to
+    `laneIn op s0 s1 s2 cin` — the fetched operands at operand width and the lane's bit of the mask source, exactly
+    the argument of `specLane` —, writes its `d` at destination width and sets bit `lane` of the lane mask iff `co`. -/
+theorem execVALU_lane (st : St) (e : VEnc)
+    (hty : e.op.ty = .int) (hsd : e.sdwa = false) (har : e.op.arith = false) (hk : IntKind e.op.kind) :
+    ∃ step, IsLaneStep st e step ∧
+      execVALU st e =
+        (match (List.range 64).foldl step ([], 0) with
+         | (ws, mask) => if writesMask e.op.kind then ws ++ wrMask e.sdst mask else ws) :=
+  execVALU_lanes st e hty hsd har hk
+
+example : IntKind (co32 "v_add_co_u32" addCo).kind ∧ (co32 "v_add_co_u32" addCo).ty = .int ∧
+    (co32 "v_add_co_u32" addCo).arith = false := ⟨Or.inr (Or.inl rfl), rfl, rfl⟩
+
+/-- **Conformance at the level of property C06's skeleton.**  C06 proves the Go loop of every translated handler equal
+    to `vexec` of the lane-local body `LaneHandler.body` (`handler_is_vexec`: EXEC guard, lane order, 64-bit
+    accumulator, write-back).  A conforming handler's lane-local body returns the specification's `d` and `co`
+    for the lane's operand values and its bit of the mask source. -/
+theorem conforms_lane_body {h : LaneHandler} {op : VOp} (c : Conforms h op) (u : Uni) (b : C06.BodyIn)
+    (hok : h.ok u = true) (hab : b.abit = false) :
+    (if op.kind == .cmp then (h.body u b).dst = none
+     else (h.body u b).dst.map (tr op.wd)
+        = some (op.f (laneIn op b.src0 b.src1 (h.embed b).src2 (maskBit h b))).d) ∧
+    (writesMask op.kind = true →
+      (h.body u b).bit = (op.f (laneIn op b.src0 b.src1 (h.embed b).src2 (maskBit h b))).co) :=
+  conforms_body c u b hok hab
+
+/-- carry-in 1, 0xffffffff + 0 (negative inline constant −1 as SRC0: all 64 bits set): destination 0, carry-out 1 -/
+example : (lh_gcn3_runVADDCU32.body C06.Uni.zero ⟨0xFFFFFFFFFFFFFFFF#64, 0#64, 0#64, 0#64, true, false⟩).bit = true ∧
+    ((lh_gcn3_runVADDCU32.body C06.Uni.zero ⟨0xFFFFFFFFFFFFFFFF#64, 0#64, 0#64, 0#64, true, false⟩).dst.map (tr 32))
+      = some 0 := by decide
 
 /-! ## Coverage: the proved rows against the regenerated opcode switches -/
 
